@@ -28,6 +28,17 @@ type budget struct {
 	Thorough int
 	Level    string
 	Rule     string
+	// exec harness: number of worlds in the batch
+	WorldsQuick, WorldsThorough int
+	// C08: size of the static half
+	StaticQuick, StaticThorough int
+}
+
+func (b budget) StaticQuickOrThorough(tier string) int {
+	if tier == "thorough" {
+		return b.StaticThorough
+	}
+	return b.StaticQuick
 }
 
 var budgets = map[string]budget{}
@@ -251,7 +262,7 @@ func main() {
 		warm := filepath.Join(verifDir, ".cache", "gocache-std")
 		_ = os.RemoveAll(warm)
 		warmCache(s.goroot, warm)
-		for _, h := range []string{"static", "clifs", "execrun"} {
+		for _, h := range []string{"static", "clifs", "execgen"} {
 			if _, err := os.Stat(filepath.Join(verifDir, "vp", h)); err == nil {
 				s.buildHarness(h)
 			}
@@ -325,46 +336,50 @@ func openFindings() []string {
 
 // ---------------------------------------------------------------- check
 
-func check(prop, tier string) int {
-	b, ok := budgets[prop]
-	if !ok {
-		die(2, "unknown property %s", prop)
-	}
-	s := newSession()
-	defer s.cleanup()
-	s.buildMoq()
-	s.goCache()
-	bin := s.buildHarness(b.Harness)
-	os.Setenv("VP_TIER_INTERNAL", tier)
-	env := s.harnessEnv(prop)
+type campaign struct {
+	lines      []string
+	violations int
+	infra      int
+	merged     *merged
+}
 
-	total := b.Quick
-	shrink := "45s"
+func tierTotals(b budget, tier string) (total int, shrink string) {
+	total, shrink = b.Quick, "45s"
 	if tier == "thorough" {
-		total = b.Thorough
-		shrink = "3m"
+		total, shrink = b.Thorough, "3m"
 	}
 	if v := os.Getenv("VP_CHECKS"); v != "" {
 		total, _ = strconv.Atoi(v)
 	}
-	nshards := 16
+	return
+}
+
+func shardCount(total int) (nshards, per int) {
+	nshards = 16
 	if v := os.Getenv("VP_SHARDS"); v != "" {
 		nshards, _ = strconv.Atoi(v)
 	}
 	if total < nshards {
 		nshards = total
 	}
-	per := (total + nshards - 1) / nshards
+	if nshards < 1 {
+		nshards = 1
+	}
+	per = (total + nshards - 1) / nshards
+	return
+}
 
-	violations := 0
-	infra := 0
-	var lines []string
+// runRapidCampaign runs the known-findings/corpus tier and then the sharded rapid campaign of a static or
+// clifs property. harnessProp is the VP_PROP the harness binary is told (C08's static half is "C08s").
+func runRapidCampaign(s *session, c *campaign, harness, prop, harnessProp string, total int, shrink string, tag string) {
+	bin := s.buildHarness(harness)
+	env := s.harnessEnv(harnessProp)
+	nshards, per := shardCount(total)
 
-	// tier R: known findings + corpus for this property
-	kfLines, kfViol, kfInfra := runKnownAndCorpus(s, bin, env, prop)
-	lines = append(lines, kfLines...)
-	violations += kfViol
-	infra += kfInfra
+	kfLines, kfViol, kfInfra := runKnownAndCorpus(s, bin, env, prop, harness)
+	c.lines = append(c.lines, kfLines...)
+	c.violations += kfViol
+	c.infra += kfInfra
 
 	results := make([]*shardResult, nshards)
 	var wg sync.WaitGroup
@@ -372,10 +387,10 @@ func check(prop, tier string) int {
 		wg.Add(1)
 		go func(i int) {
 			defer wg.Done()
-			dir := filepath.Join(s.scratch, fmt.Sprintf("s%d", i))
+			dir := filepath.Join(s.scratch, fmt.Sprintf("%ss%d", tag, i))
 			_ = os.MkdirAll(dir, 0o755)
-			cmd := exec.Command(bin, "-test.run", "^"+testName(b.Harness)+"$", "-test.timeout", "0", "-test.count", "1",
-				"-rapid.checks", strconv.Itoa(per), "-rapid.seed", strconv.FormatUint(shardSeed(prop, i), 10),
+			cmd := exec.Command(bin, "-test.run", "^"+testName(harness)+"$", "-test.timeout", "0", "-test.count", "1",
+				"-rapid.checks", strconv.Itoa(per), "-rapid.seed", strconv.FormatUint(shardSeed(harnessProp, i), 10),
 				"-rapid.shrinktime", shrink, "-rapid.nofailfile")
 			cmd.Dir = dir
 			cmd.Env = append(append([]string{}, env...), "VP_SHARD="+strconv.Itoa(i), "VP_SHARD_DIR="+dir)
@@ -389,57 +404,85 @@ func check(prop, tier string) int {
 	}
 	wg.Wait()
 
-	merged := newMerged()
 	for _, r := range results {
 		if r.stats == nil {
-			infra++
-			lines = append(lines, fmt.Sprintf("INFRA shard %d produced no stats: %v\n%s", r.idx, r.err, tail(r.out, 30)))
+			c.infra++
+			c.lines = append(c.lines, fmt.Sprintf("INFRA shard %d produced no stats: %v\n%s", r.idx, r.err, tail(r.out, 30)))
 			continue
 		}
-		merged.add(r.stats)
+		c.merged.add(r.stats)
 		failDir := filepath.Join(r.dir, "fail")
 		if _, err := os.Stat(filepath.Join(failDir, "case.json")); err == nil {
+			// the saved case names the harness property; the replay must be filed under the claimed one
 			hash := caseHash(failDir)
 			dst := filepath.Join(verifDir, "replays", prop+"-"+hash)
 			_ = os.RemoveAll(dst)
 			_ = os.MkdirAll(filepath.Dir(dst), 0o755)
 			if out, err := run("/", nil, "cp", "-a", failDir, dst); err != nil {
-				lines = append(lines, "INFRA copying replay: "+out)
-				infra++
+				c.lines = append(c.lines, "INFRA copying replay: "+out)
+				c.infra++
 			}
 			msg := readViolationMsg(failDir)
-			violations++
-			lines = append(lines, fmt.Sprintf("VIOLATION property=%s replay=%s", prop, dst))
-			lines = append(lines, "  "+msg)
+			c.violations++
+			c.lines = append(c.lines, fmt.Sprintf("VIOLATION property=%s replay=%s", prop, dst))
+			c.lines = append(c.lines, "  "+msg)
 		} else if r.err != nil {
-			infra++
-			lines = append(lines, fmt.Sprintf("INFRA shard %d failed without a saved case: %v\n%s", r.idx, r.err, tail(r.out, 40)))
+			c.infra++
+			c.lines = append(c.lines, fmt.Sprintf("INFRA shard %d failed without a saved case: %v\n%s", r.idx, r.err, tail(r.out, 40)))
 		} else if !strings.Contains(r.out, "PASS") {
-			infra++
-			lines = append(lines, fmt.Sprintf("INFRA shard %d: unexpected output\n%s", r.idx, tail(r.out, 20)))
+			c.infra++
+			c.lines = append(c.lines, fmt.Sprintf("INFRA shard %d: unexpected output\n%s", r.idx, tail(r.out, 20)))
 		}
 	}
-	if merged.disagreements > 0 {
-		infra++
-		lines = append(lines, fmt.Sprintf("INFRA %d ground-truth disagreements (harness type-check vs. go vet); see evidence", merged.disagreements))
+}
+
+func (c *campaign) finish(s *session, prop, tier string, b budget) int {
+	m := c.merged
+	if m.disagreements > 0 {
+		c.infra++
+		c.lines = append(c.lines, fmt.Sprintf("INFRA %d ground-truth disagreements (harness type-check vs. go vet); see evidence", m.disagreements))
 	}
-	if merged.evaluations > 0 && merged.invalid*100 > merged.evaluations+merged.invalid {
-		infra++
-		lines = append(lines, fmt.Sprintf("INFRA invalid-world rate too high: %d invalid vs %d evaluated", merged.invalid, merged.evaluations))
+	if m.evaluations > 0 && m.invalid*100 > m.evaluations+m.invalid {
+		c.infra++
+		c.lines = append(c.lines, fmt.Sprintf("INFRA invalid-world rate too high: %d invalid vs %d evaluated", m.invalid, m.evaluations))
 	}
-	writeEvidence(prop, tier, b, merged, violations, time.Since(s.t0).Seconds())
-	for _, l := range lines {
+	writeEvidence(prop, tier, b, m, c.violations, time.Since(s.t0).Seconds())
+	for _, l := range c.lines {
 		fmt.Println(l)
 	}
-	fmt.Printf("%s %s: evaluations=%d distinct_nontrivial=%d invalid_worlds=%d violations=%d wall=%.1fs\n", prop, tier, merged.evaluations,
-		len(merged.nontrivial), merged.invalid, violations, time.Since(s.t0).Seconds())
-	if violations > 0 {
+	fmt.Printf("%s %s: evaluations=%d distinct_nontrivial=%d invalid_worlds=%d violations=%d wall=%.1fs\n", prop, tier, m.evaluations,
+		len(m.nontrivial), m.invalid, c.violations, time.Since(s.t0).Seconds())
+	if c.violations > 0 {
 		return 1
 	}
-	if infra > 0 {
+	if c.infra > 0 {
 		return 2
 	}
 	return 0
+}
+
+func check(prop, tier string) int {
+	b, ok := budgets[prop]
+	if !ok {
+		die(2, "unknown property %s", prop)
+	}
+	s := newSession()
+	defer s.cleanup()
+	s.buildMoq()
+	s.goCache()
+	os.Setenv("VP_TIER_INTERNAL", tier)
+	c := &campaign{merged: newMerged()}
+	total, shrink := tierTotals(b, tier)
+	if b.Harness == "exec" {
+		if prop == "C08" {
+			// static half: Reset* methods exist exactly when -with-resets is given
+			runRapidCampaign(s, c, "static", prop, "C08s", b.StaticQuickOrThorough(tier), shrink, "st")
+		}
+		execCampaign(s, c, prop, tier, total)
+		return c.finish(s, prop, tier, b)
+	}
+	runRapidCampaign(s, c, b.Harness, prop, prop, total, shrink, "")
+	return c.finish(s, prop, tier, b)
 }
 
 func testName(h string) string {
@@ -490,7 +533,7 @@ func readViolationMsg(dir string) string {
 
 // runKnownAndCorpus replays the listed findings (each must still fail the same way -> KNOWN-FINDING line)
 // and the saved corpus of the property (each must pass).
-func runKnownAndCorpus(s *session, bin string, env []string, prop string) (lines []string, viol, infra int) {
+func runKnownAndCorpus(s *session, bin string, env []string, prop string, harness string) (lines []string, viol, infra int) {
 	replayOne := func(path string) (map[string]any, string) {
 		dir, _ := os.MkdirTemp(s.scratch, "r.")
 		outFile := filepath.Join(dir, "out.json")
@@ -570,6 +613,17 @@ func replay(path string) int {
 	defer s.cleanup()
 	s.buildMoq()
 	s.goCache()
+	if bd.Harness == "exec" {
+		rc, msg := execReplay(s, abs, "0")
+		fmt.Println(msg)
+		switch rc {
+		case 1:
+			fmt.Printf("VIOLATION property=%s replay=%s\n", c.Prop, abs)
+		case 0:
+			fmt.Println("ok: no violation on replay")
+		}
+		return rc
+	}
 	bin := s.buildHarness(bd.Harness)
 	env := s.harnessEnv(c.Prop)
 	dir, _ := os.MkdirTemp(s.scratch, "r.")
